@@ -86,6 +86,28 @@ PROPS = {
                  "acknowledged or after it was announced, or a Close with pending results; distinct by case hash."),
         "assumptions": ["the resume part of the quantifier (acks across a link failure) is exercised by C05/C07 scenarios; results buffered on a dead link are a recorded limitation there"],
     },
+    "C05": {
+        "level": "fault_enumeration",
+        "groups": [g("main", "c05", q=16, t=32, run="^Test(Regress|Known.*|Prop)$", gomaxprocs=[4, 2, 4, 16])],
+        "parallel": 16,
+        "timeout": {"quick": 900, "thorough": 3600},
+        "rule": ("generated: 0-4 upstreams and 0-4 downstreams (all QoS) open with light traffic; 1-3 outages, each: the established link is cut "
+                 "(after everything the broker sent was delivered), 0-2 redials are cut during the connect handshake, 0-2 dial attempts fail first "
+                 "(slow redial), optionally the resume exchange of a chosen stream is cut before/after its response, or refused (StreamNotFound), or "
+                 "answered with 1-2 RESUME_REQUEST_CONFLICTs first, optionally a back-to-back second failure 0-3 messages after recovery; API calls "
+                 "(open upstream/downstream, metadata, call, write, read; 3 s contexts) started right before the cut and during the outage; redial "
+                 "instant or paced (6 ms). Oracle: fresh token per ConnectRequest and one token-source call per dial attempt; after recovery every "
+                 "stream either resumed (original id; downstreams original alias; at most one successful resume per connection) or - only if its "
+                 "resume was refused or a re-established connection died before its resume exchange had settled - is reported closed; surviving "
+                 "streams work (probe write reaches the broker on the new connection / probe chunk is read): never silently detached; requests "
+                 "around the failure succeed; one disconnected / reconnected event per lost / re-established connection and one resumed event per "
+                 "successful resume. Non-trivial = calls around the failure, a failure during a redial handshake or a resume exchange, or >= 2 "
+                 "outages with >= 2 streams; distinct by case hash."),
+        "assumptions": ["scripted cuts happen after the client has read everything the broker sent (same cut position in both views)",
+                        "a resume response sent less than 5 ms before the connection died may lose the race against the connection error: counts as a cut resume exchange",
+                        "keepalive interval 20 ms, ping timeout 1.5 s (a severed link fails the next ping write at once, a slow pong under load must not fake an outage)",
+                        "known findings C05-call-not-resent and C05-spurious-reconnect (instant redial only) are neutralised for exactly their shape and counted as excluded_known"],
+    },
     "C06": {
         "level": "exploration",
         "groups": [g("main", "c06", q=8, t=32, run="^Test(Prop)$", gomaxprocs=[4, 1, 2, 16])],
